@@ -676,6 +676,7 @@ func main() {
 		if err := json.Unmarshal([]byte(lines[len(lines)-1]), &st); err != nil {
 			st.Crash = "no statistics from child: " + racerep.CrashSig(res)
 		}
+		st.Race = raceEnabled // parent and child are the same binary (a crashed child reports nothing)
 		evs := racerep.Events(res.Reports, vh.M{"phase": *phase}, "sc")
 		if res.ExitCode != 0 && res.ExitCode != 3 {
 			st.Crash = racerep.CrashSig(res)
